@@ -40,6 +40,14 @@ CLAIMED = {
                 "overflows is irrelevant to the rule. " + TRUST,
         "technique": "who-may-construct inventory + reaching-definition provenance + CFG dominance of finite guards",
     },
+    "C10": {
+        "level": "Static decision of the storage discipline behind language/locale independence: typestate dataflow of the "
+                 "parser configuration at every parse of stored text, English-only printers into stored fields, and the write "
+                 "footprint of set_language/set_locale from whole-program effect summaries.",
+        "note": "Does not decide that values of locale-independent functions are unchanged (needs evaluation). The stored-text "
+                "table {shared_formulas: R1C1/default, DefinedName.formula: A1/default} is the repo's own documented convention. " + TRUST,
+        "technique": "typestate dataflow over the CFG (set_* transitions) + provenance of parse arguments + effect summaries",
+    },
     "C17": {
         "level": "Static decision of the rename rewrite's shape: stores of the new name are control-dependent on an index "
                  "comparison; the walker recurses into every child-bearing Node variant.",
